@@ -54,6 +54,8 @@ def run(ctx):
              # single-cell datasets
              ('cf1d', dict(ny=1, nx=1, bounds=True)), ('cf2d', dict(ny=1, nx=1, bounds=True, holes='none', invalid=False)),
              ('shoc_standard', dict(nj=1, ni=1, holes='none', invalid=False)), ('ugrid', dict(w=1, h=1, invalid=False)),
+             ('shoc_standard', dict(nj=3, ni=4, holes='corner', invalid=False, plain=True)),
+             ('cf1d', dict(ny=3, nx=4, mixed_dtypes='lon_int')), ('cf1d', dict(ny=4, nx=3, bounds=True, bounds_on='lat')), ('cf1d', dict(ny=3, nx=5, bounds=True, bounds_on='lon')),
              ('shoc_simple', dict(ny=3, nx=3, holes='corner')), ('shoc_standard', dict(nj=3, ni=4, holes='random')),
              ('shoc_standard', dict(nj=3, ni=3, holes='edge', invalid=True)),
              ('shoc_standard', dict(nj=2, ni=4, holes='corner', invalid=False, transposed_coords=('x_centre',))),
@@ -217,7 +219,8 @@ def run(ctx):
             r = attempt(lambda: (pm.impl_polygons(d.ds.ems), pm.impl_polygons(d.ds.copy().ems)))
         if not d.ds.identical(snap):
             ctx.report('property', 'the dataset was modified in place by reading its geometry', case)
-        elif r[0] == 'ok' and r[1][0] != r[1][1]:
+        elif r[0] == 'ok' and r[1][0] != r[1][1] and 'plain ArakawaC' not in d.spec['label']:
+            # (a dataset bound by hand to ArakawaC: its copy is not bound and is detected afresh - not compared)
             n = next(i for i, (a, b) in enumerate(zip(*r[1])) if a != b)
             ctx.report('property', f'position {n}: a shallow copy of the dataset has polygon {r[1][1][n]}, the dataset itself {r[1][0][n]}', case)
 
